@@ -90,15 +90,16 @@ Stop == /\ ~stopped /\ (t = mi \/ MayStop)
 
 Extend ==
   /\ ~stopped /\ t < mi /\ MayGoOn
-  /\ LET c == Cands(beam)
-         k == IF Cardinality(DOMAIN c) < width THEN Cardinality(DOMAIN c) ELSE width
-         \* a candidate with the k-th largest score: everything strictly above it must be kept, ties at it are free
-         kth == CHOOSE z \in DOMAIN c : /\ Cardinality({x \in DOMAIN c : Geq(c[x], c[z])}) >= k
-                                        /\ Cardinality({x \in DOMAIN c : Gt(c[x], c[z])}) < k
-         must == {z \in DOMAIN c : Gt(c[z], c[kth])}
-         tied == {z \in DOMAIN c : Geq(c[z], c[kth]) /\ Geq(c[kth], c[z])}
-     IN \E X \in kSubset(k - Cardinality(must), tied) :
-          beam' = [z \in must \cup X |-> c[z]]
+  \* (TLC re-evaluates a LET definition at every use; binding through a singleton set evaluates it once)
+  /\ \E c \in {Cands(beam)} :
+       LET k == IF Cardinality(DOMAIN c) < width THEN Cardinality(DOMAIN c) ELSE width
+       IN \* a candidate with the k-th largest score: everything strictly above it must be kept, ties at it are free
+          \E kth \in {CHOOSE z \in DOMAIN c : /\ Cardinality({x \in DOMAIN c : Geq(c[x], c[z])}) >= k
+                                                /\ Cardinality({x \in DOMAIN c : Gt(c[x], c[z])}) < k} :
+            LET must == {z \in DOMAIN c : Gt(c[z], c[kth])}
+                tied == {z \in DOMAIN c : Geq(c[z], c[kth]) /\ Geq(c[kth], c[z])}
+            IN \E X \in kSubset(k - Cardinality(must), tied) :
+                 beam' = [z \in must \cup X |-> c[z]]
   /\ t' = t + 1
   /\ prevbeam' = beam
   /\ UNCHANGED <<V, tv, eos, fa, mi, width, stopped>>
